@@ -8,7 +8,7 @@ VERIF = os.path.dirname(os.path.dirname(os.path.abspath(__file__)))
 HARNESS = os.path.join(VERIF, "harness")
 DEFAULT_ROOT = "/repo"
 JOBS = int(os.environ.get("FXMC_JOBS", "16"))
-TIER_DEADLINE = {"quick": 8 * 60, "thorough": 40 * 60}
+TIER_DEADLINE = {"quick": 15 * 60, "thorough": 40 * 60}    # quick tiers take 1-4 minutes on 16 idle cores; the slack is for a shared machine
 MAX_PRINTED = 20
 
 
